@@ -21,15 +21,19 @@ func init() {
 			"R2 proxy attributes read by cached generation (EDS load assignment, cluster build) are read by the key construction",
 			"R3 DependentConfigs() of each entry reads every config-valued key field",
 			"R4 lruCache state is touched only under mu (write lock for LRU-mutating calls incl. Get); Clear/ClearAll advance the token on every path; Add inserts only after both staleness comparisons",
+			"R6 the key is final at lookup: after a generator consults the cache with an entry, nothing on the way to the insertion writes a field of that entry that its Key() hashes (lookup and insertion use one key)",
+			"R7 the deferred (Flush) clean-up of the dependency index consults the store for the key on every path before it removes an index entry (an entry re-added since the eviction keeps its index)",
 			"R5 invalidate before publish: dropCacheForRequest precedes SetPushContext; the Address-kind ClearAll precedes the hand-off to the push channel; XdsCacheImpl.Clear clears every typed cache",
 		},
-		NotDecided: "byte equality with a fresh generation; completeness of what a conditional hash contribution depends on; interleavings beyond lock/order structure; LRU eviction index cleanup",
+		NotDecided: "byte equality with a fresh generation; completeness of what a conditional hash contribution depends on; interleavings beyond lock/order structure; that the liveness re-validation of the index clean-up computes the right difference",
 		Rules: []Rule{
 			{"C06-R1", "key covers every field", c06r1},
 			{"C06-R2", "generation reads of proxy attributes are keyed", c06r2},
 			{"C06-R3", "dependent configs cover config-valued key fields", c06r3},
 			{"C06-R4", "cache lock and token discipline", c06r4},
 			{"C06-R5", "invalidate before publish", c06r5},
+			{"C06-R6", "the key is complete when the cache is consulted", c06r6},
+			{"C06-R7", "deferred index clean-up re-validates liveness", c06r7},
 		},
 	})
 }
@@ -557,4 +561,391 @@ func c06r5(c *Ctx) {
 		}
 	}
 	c.Floor(12)
+}
+
+
+// keyFieldsOf: the fields of a cache entry struct read (transitively) by its key function.
+func keyFieldsOf(p *Prog, e cacheEntrySpec) map[*types.Var]bool {
+	st := p.Struct(e.pkg, e.typ)
+	fn := p.Func(e.pkg, e.typ, e.keyFn)
+	eff := effectsOf(p.CG().Reach([]*ssa.Function{fn}, nil))
+	out := map[*types.Var]bool{}
+	for _, f := range fieldsOf(st) {
+		if _, ok := eff.Reads[f]; ok {
+			out[f] = true
+		}
+	}
+	return out
+}
+
+func stripIface(v ssa.Value) ssa.Value {
+	for {
+		switch x := v.(type) {
+		case *ssa.MakeInterface:
+			v = x.X
+		case *ssa.ChangeInterface:
+			v = x.X
+		default:
+			return v
+		}
+	}
+}
+
+func c06r6(c *Ctx) {
+	p := c.P
+	gen := map[string]bool{istioMod + "/" + pkgCore: true, istioMod + "/" + pkgRoute: true, istioMod + "/" + pkgXds: true, istioMod + "/" + pkgEndpoints: true}
+	type ent struct {
+		spec cacheEntrySpec
+		nt   *types.Named
+		keys map[*types.Var]bool
+	}
+	var ents []ent
+	for _, e := range cacheEntries {
+		ents = append(ents, ent{e, p.Named(e.pkg, e.typ), keyFieldsOf(p, e)})
+	}
+	entOf := func(t types.Type) *ent {
+		nt, _ := derefNamed(t)
+		if nt == nil {
+			return nil
+		}
+		for i := range ents {
+			if ents[i].nt.Obj() == nt.Obj() {
+				return &ents[i]
+			}
+		}
+		return nil
+	}
+	n := 0
+	for _, fn := range p.AllFuncs {
+		if !gen[funcPkgPath(fn)] || strings.HasSuffix(p.Fset.Position(fn.Pos()).Filename, "_test.go") {
+			continue
+		}
+		eachInstr(fn, func(ins ssa.Instruction) {
+			ci, ok := ins.(ssa.CallInstruction)
+			if !ok {
+				return
+			}
+			cc := ci.Common()
+			name := ""
+			if cc.IsInvoke() {
+				name = cc.Method.Name()
+			} else if o := calleeObj(ins); o != nil {
+				name = o.Name()
+			}
+			if name != "Get" || len(cc.Args) == 0 {
+				return
+			}
+			// receiver is the xDS cache
+			var recvT types.Type
+			if cc.IsInvoke() {
+				recvT = cc.Value.Type()
+			} else if len(cc.Args) > 0 {
+				recvT = cc.Args[0].Type()
+			}
+			rn, _ := derefNamed(recvT)
+			if rn == nil || pkgPathOf(rn.Obj()) != istioMod+"/"+pkgModel || !strings.Contains(rn.Obj().Name(), "Cache") {
+				return
+			}
+			arg := cc.Args[len(cc.Args)-1]
+			ev := stripIface(arg)
+			en := entOf(ev.Type())
+			if en == nil {
+				return
+			}
+			n++
+			def, _ := ev.(ssa.Instruction)
+			// the entry may also be reachable through the variable it was loaded from / its address taken from
+			same := func(v ssa.Value) bool {
+				v = stripIface(v)
+				return v == ev
+			}
+			var witness string
+			goal := func(i ssa.Instruction) bool {
+				switch x := i.(type) {
+				case *ssa.Store:
+					if fa, ok := x.Addr.(*ssa.FieldAddr); ok && same(fa.X) {
+						if fv := fieldVar(fa.X.Type(), fa.Field); en.keys[fv] {
+							witness = "writes " + en.spec.typ + "." + fv.Name() + " at " + p.pos(x.Pos())
+							return true
+						}
+					}
+				case ssa.CallInstruction:
+					xc := x.Common()
+					passes := false
+					for _, a := range xc.Args {
+						if same(a) {
+							passes = true
+						}
+					}
+					if xc.IsInvoke() && same(xc.Value) {
+						passes = true
+					}
+					if !passes {
+						return false
+					}
+					// the cache itself is a summarised boundary (it only calls Key()/DependentConfigs() on the entry)
+					if xc.IsInvoke() {
+						if r, _ := derefNamed(xc.Value.Type()); r != nil && pkgPathOf(r.Obj()) == istioMod+"/"+pkgModel && strings.Contains(r.Obj().Name(), "Cache") {
+							return false
+						}
+					}
+					set := map[*ssa.Function]bool{}
+					p.CG().instrCallees(i, set)
+					var roots []*ssa.Function
+					for f := range set {
+						roots = append(roots, f)
+					}
+					if len(roots) == 0 {
+						return false
+					}
+					// writes to the entry the caller handed in (not to a fresh entry the callee builds for itself)
+					if w := entryWrittenByCall(p, i, same, en.keys, map[string]bool{}, 0); w != "" {
+						witness = "calls " + shortFn(roots[0]) + " at " + p.pos(i.Pos()) + ", which writes " + en.spec.typ + "." + w
+						return true
+					}
+				}
+				return false
+			}
+			block := func(i ssa.Instruction) bool { return def != nil && i == def }
+			bad := pathAvoiding(fn, ins, block, goal)
+			if bad != nil {
+				// only matters when the same entry is inserted afterwards (re-keying a copy for further lookups is fine)
+				isAdd := func(i ssa.Instruction) bool {
+					if r, ok := i.(*ssa.Return); ok {
+						// handed back to the caller, which inserts it
+						for _, rv := range r.Results {
+							if same(rv) {
+								return true
+							}
+						}
+						return false
+					}
+					x, ok := i.(ssa.CallInstruction)
+					if !ok {
+						return false
+					}
+					xc := x.Common()
+					nm := ""
+					if xc.IsInvoke() {
+						nm = xc.Method.Name()
+					} else if o := calleeObj(i); o != nil {
+						nm = o.Name()
+					}
+					if nm != "Add" {
+						return false
+					}
+					for _, a := range xc.Args {
+						if same(a) {
+							return true
+						}
+					}
+					return false
+				}
+				if pathAvoiding(fn, bad, block, isAdd) == nil {
+					bad = nil
+				}
+			}
+			c.Check("key final at lookup: "+stableFnName(fn)+"|"+en.spec.typ, ins.Pos(), bad == nil,
+				"after the cache is consulted with this entry the code "+witness+": the lookup used a key without that part while the insertion (and the dependency index) uses the full key, so a resource built for a different value of the field is returned from the cache")
+		})
+	}
+	c.Check("cache lookups with key structs found", token.NoPos, n >= 3, "fewer cache Get sites than confirmed by hand (route, cluster, endpoint)")
+	c.Floor(4)
+}
+
+func c06r7(c *Ctx) {
+	p := c.P
+	idxF := p.Field(pkgModel, "lruCache", "configIndex")
+	storeF := p.Field(pkgModel, "lruCache", "store")
+	flush := p.Func(pkgModel, "lruCache", "Flush")
+	reach := p.CG().Reach([]*ssa.Function{flush}, func(f *ssa.Function) bool { return funcPkgPath(f) != istioMod+"/"+pkgModel })
+	isRemoval := func(ins ssa.Instruction) bool {
+		ci, ok := ins.(ssa.CallInstruction)
+		if !ok {
+			return false
+		}
+		cc := ci.Common()
+		touches := false
+		for _, a := range cc.Args {
+			if fieldOfLoad(a) == idxF {
+				touches = true
+			}
+		}
+		if !touches {
+			return false
+		}
+		if bi, ok := cc.Value.(*ssa.Builtin); ok {
+			return bi.Name() == "delete"
+		}
+		if o := calleeObj(ins); o != nil {
+			return strings.HasPrefix(o.Name(), "Delete")
+		}
+		return false
+	}
+	isLookup := func(ins ssa.Instruction) bool {
+		ci, ok := ins.(ssa.CallInstruction)
+		if !ok {
+			return false
+		}
+		cc := ci.Common()
+		var recv ssa.Value
+		if cc.IsInvoke() {
+			recv = cc.Value
+		} else if len(cc.Args) > 0 {
+			recv = cc.Args[0]
+		}
+		if recv == nil || fieldOfLoad(recv) != storeF {
+			return false
+		}
+		name := ""
+		if cc.IsInvoke() {
+			name = cc.Method.Name()
+		} else if o := calleeObj(ins); o != nil {
+			name = o.Name()
+		}
+		return name == "Get" || name == "Peek" || name == "Contains"
+	}
+	n := 0
+	var fns []*ssa.Function
+	for f := range reach {
+		fns = append(fns, f)
+	}
+	sort.Slice(fns, func(i, j int) bool { return fnKey(fns[i]) < fnKey(fns[j]) })
+	for _, fn := range fns {
+		has := false
+		eachInstr(fn, func(ins ssa.Instruction) {
+			if isRemoval(ins) {
+				has = true
+			}
+		})
+		if !has {
+			continue
+		}
+		n++
+		bad := pathAvoiding(fn, nil, isLookup, isRemoval)
+		pos := fn.Pos()
+		if bad != nil {
+			pos = bad.Pos()
+		}
+		c.Check("deferred index removal looks the key up first: "+stableFnName(fn), pos, bad == nil,
+			"the clean-up that runs from Flush removes dependency-index entries of a key without asking the store whether the key is live again: a key that was evicted and re-added before the Flush tick loses its index, the next change of the configuration it depends on no longer evicts it, and the stale resource is served indefinitely")
+	}
+	c.Check("index removal on the Flush path found", flush.Pos(), n >= 1, "no dependency-index removal reachable from Flush")
+	c.Floor(2)
+}
+
+
+// entryWrittenByCall: does the call hand a tracked pointer to a callee that (transitively) stores into one of the
+// given fields THROUGH that pointer? Returns "field (pos)" of a witness or "".
+func entryWrittenByCall(p *Prog, call ssa.Instruction, tracked func(ssa.Value) bool, keys map[*types.Var]bool, seen map[string]bool, depth int) string {
+	if depth > 6 {
+		return ""
+	}
+	ci, ok := call.(ssa.CallInstruction)
+	if !ok {
+		return ""
+	}
+	cc := ci.Common()
+	set := map[*ssa.Function]bool{}
+	p.CG().instrCallees(call, set)
+	for callee := range set {
+		// map actuals to formals
+		var idxs []int
+		if cc.IsInvoke() {
+			if tracked(cc.Value) {
+				idxs = append(idxs, 0)
+			}
+			for k, a := range cc.Args {
+				if tracked(a) {
+					idxs = append(idxs, k+1)
+				}
+			}
+		} else {
+			for k, a := range cc.Args {
+				if tracked(a) {
+					idxs = append(idxs, k)
+				}
+			}
+		}
+		for _, k := range idxs {
+			if k >= len(callee.Params) {
+				continue
+			}
+			if w := writtenThrough(p, callee, callee.Params[k], keys, seen, depth+1); w != "" {
+				return w
+			}
+		}
+	}
+	return ""
+}
+
+func writtenThrough(p *Prog, fn *ssa.Function, root ssa.Value, keys map[*types.Var]bool, seen map[string]bool, depth int) string {
+	if _, isPtr := root.Type().Underlying().(*types.Pointer); !isPtr {
+		if _, isIf := root.Type().Underlying().(*types.Interface); !isIf {
+			return "" // passed by value: the callee works on a copy
+		}
+	}
+	key := fnKey(fn) + "#" + root.Name()
+	if seen[key] {
+		return ""
+	}
+	seen[key] = true
+	der := map[ssa.Value]bool{root: true}
+	changed := true
+	for changed {
+		changed = false
+		eachInstr(fn, func(ins ssa.Instruction) {
+			v, ok := ins.(ssa.Value)
+			if !ok || der[v] {
+				return
+			}
+			switch x := ins.(type) {
+			case *ssa.Phi:
+				for _, e := range x.Edges {
+					if der[e] {
+						der[v], changed = true, true
+					}
+				}
+			case *ssa.ChangeType:
+				if der[x.X] {
+					der[v], changed = true, true
+				}
+			case *ssa.MakeInterface:
+				if der[x.X] {
+					der[v], changed = true, true
+				}
+			case *ssa.ChangeInterface:
+				if der[x.X] {
+					der[v], changed = true, true
+				}
+			case *ssa.TypeAssert:
+				if der[x.X] {
+					der[v], changed = true, true
+				}
+			case *ssa.FieldAddr:
+				// address of an embedded struct inside the entry
+				if der[x.X] && structOf(x.Type()) != nil {
+					der[v], changed = true, true
+				}
+			}
+		})
+	}
+	tracked := func(v ssa.Value) bool { return der[v] }
+	res := ""
+	eachInstr(fn, func(ins ssa.Instruction) {
+		if res != "" {
+			return
+		}
+		switch x := ins.(type) {
+		case *ssa.Store:
+			if fa, ok := x.Addr.(*ssa.FieldAddr); ok && der[fa.X] {
+				if fv := fieldVar(fa.X.Type(), fa.Field); keys[fv] {
+					res = fv.Name() + " of the entry it was given (" + p.pos(x.Pos()) + ")"
+				}
+			}
+		case ssa.CallInstruction:
+			res = entryWrittenByCall(p, ins, tracked, keys, seen, depth)
+		}
+	})
+	return res
 }
